@@ -448,8 +448,9 @@ def do_check(prop, tier, seed, extra):
                         det.setdefault("dirty_memory_dependent", []).append({"batch": det_batches[bi].get("name"), "seed": s_})
                         dirty.append((det_batches[bi], s_))
             if det["mismatches"]:
-                log("SIM-ERROR: simulator is not deterministic; no verdict")
-                return 2
+                # not fatal yet: a use-after-free or an uninitialised read in the code under test looks exactly like this on plain
+                # builds; the main batches (sanitizer builds included) run first, and only if they report nothing is the run void
+                log("WARNING: %d sampled plans did not reproduce their own event hash; continuing to the main batches" % det["mismatches"])
     # ---- main batches
     results = run_batches(exes, batches, seed)
     known = load_known()
@@ -646,7 +647,9 @@ def do_check(prop, tier, seed, extra):
         print("VIOLATION property=%s replay=%s" % (prop, path))
         print("  " + msg.replace("\n", "\n  "))
     log("[%s] %d runs, %d distinct non-trivial, %d violations, %d known, %.1fs" % (prop, cov["evaluations"], len(distinct), len(out_viol), len(known_hits), time.time() - t0))
-    if gate_fail and not out_viol:
+    if (gate_fail or det.get("mismatches")) and not out_viol:
+        if det.get("mismatches"):
+            log("SIM-ERROR: executions are not deterministic and no check explains why; no verdict")
         return 2
     if cov["evaluations"] == 0:
         log("SIM-ERROR: no run completed")
